@@ -335,61 +335,26 @@ static void FLA_GHASH_128_mul(uint32 *X, const uint32 *Y, uint32 moduli)
     }
 }
 
-static int FLFIncreaseCountBits(psAesGcm_t *ctx, unsigned int CounterId,
-    int32 NBits)
-{
-    int32 Lo, Hi;
-    int32 Temp;
-
-    Lo = NBits;
-    Hi = 0;
-
-    Temp = ctx->ProcessedBitCount[CounterId];
-    ctx->ProcessedBitCount[CounterId] += Lo;
-
-    if (Temp > (int32) ctx->ProcessedBitCount[CounterId])
-    {
-        Hi += 1;
-    }
-
-    if (Hi)
-    {
-        Temp = ctx->ProcessedBitCount[CounterId + 1];
-        ctx->ProcessedBitCount[CounterId + 1] += Hi;
-
-        /* Returns true if carry out of highest bits. */
-        return Temp > (int32) ctx->ProcessedBitCount[CounterId + 1];
-    }
-
-    /* No update of high order bits => No carry. */
-    return 0; /* false */
-}
-
-static int increaseCountBytes(psAesGcm_t *ctx, int32 NBytes,
+/* Add NBytes * 8 to the 64-bit bit counter kept in
+   ProcessedBitCount[CounterId] (low word) and [CounterId + 1] (high word).
+   Unsigned 64-bit arithmetic: the former 32-bit code detected the carry into
+   the high word with a signed comparison and dropped the part of NBytes above
+   2^28, so the length block (and the tag) was wrong once 2^31 bits of AAD or
+   ciphertext had been processed. */
+static int increaseCountBytes(psAesGcm_t *ctx, uint32 NBytes,
     int CounterId)
 {
-    int carry;
+    uint64 bits, add;
 
-    /* COVN: Test this code with > 2^31 bits. */
+    bits = ((uint64) ctx->ProcessedBitCount[CounterId + 1] << 32) |
+           (uint64) ctx->ProcessedBitCount[CounterId];
+    add = ((uint64) NBytes) << 3;
+    bits += add;
+    ctx->ProcessedBitCount[CounterId] = (uint32) (bits & 0xFFFFFFFFUL);
+    ctx->ProcessedBitCount[CounterId + 1] = (uint32) (bits >> 32);
 
-    /* Process NBytes (assuming NBytes < 0x10000000) */
-    carry = FLFIncreaseCountBits(ctx, CounterId, (NBytes & 0x0FFFFFFF) << 3);
-
-    NBytes &= 0x0FFFFFFF;
-
-    /* For unusually large values of NBytes, process the remaining bytes
-       to add 0x10000000 at time. This ensure the value of bytes,
-       once converted to bits, does not overflow 32-bit value.
-
-       PORTN: It is assumed NBytes <= 2**61. This is true on 32-bit APIs as
-       FL_DataLen_t cannot represent such large value. */
-    while (NBytes >= 0x10000000)
-    {
-        carry |= FLFIncreaseCountBits(ctx, CounterId, 0x10000000U * 8);
-        NBytes -= 0x10000000;
-    }
-
-    return carry;
+    /* Returns true if carry out of highest bits. */
+    return bits < add;
 }
 
 static void FLAGcmProcessBlock(uint32 *H, FL_UInt32_BE_UNA_t *Buf_p,
